@@ -4,5 +4,5 @@ cd "$(dirname "$0")/.."
 props=${@:-C01 C02 C03 C04 C05 C06 C07 C08 C09 C10 C11 C12 C13 C14 C15 C16 C17 C18 C19 C20}
 for p in $props; do
   echo "=== $p"
-  /venv/bin/python -m vf.selftest $p 2>&1 | grep -E "CAUGHT|MISSED|Error|error" 
+  /venv/bin/python -m vf.selftest $p 2>&1 | grep -E "CAUGHT|MISSED|STALE|Error|error" 
 done
